@@ -634,6 +634,16 @@ def no_aliased_containers(ctx, rule, prefixes, floor, why):
                 fn = enclosing_func(m, node)
                 q = '%s::%s' % (rel, next((k for k, f in m.funcs.items() if f is fn), ''))
                 ctx.bad(rule, q, 'one container for several places: %s' % U(node)[:80], why, None, node, firm=True)
+            # `[{}] * n` / `[[]] * n`: sequence repetition copies the REFERENCE - all n slots are one container (seed C10-fb)
+            v = node.value
+            if isinstance(v, ast.BinOp) and isinstance(v.op, ast.Mult):
+                for side, other in ((v.left, v.right), (v.right, v.left)):
+                    if isinstance(side, (ast.List, ast.Tuple)) and any(builds_mutable(e) for e in side.elts) \
+                            and not (const(other) in (0, 1)):
+                        bad = True
+                        fn = enclosing_func(m, node)
+                        q = '%s::%s' % (rel, next((k for k, f in m.funcs.items() if f is fn), ''))
+                        ctx.bad(rule, q, 'one container repeated into every slot: %s' % U(node)[:80], why, None, node, firm=True)
     if ctx.floor(rule, prefixes[0], n, floor, 'assignments in %s' % ', '.join(prefixes)) and not bad:
         ctx.ok(rule, prefixes[0], 'no freshly built container is bound to two places by one chained assignment (%d assignments)' % n)
 
@@ -763,3 +773,57 @@ def no_generator_reuse(ctx, rule, prefixes, floor, why):
                     ctx.unk(rule, q, 'one-shot iterator %s is consumed by several loops' % nm)
     if ctx.floor(rule, prefixes[0], n, floor, 'names bound to one-shot iterators in %s' % ', '.join(prefixes)) and not bad:
         ctx.ok(rule, prefixes[0], 'no one-shot iterator is looped over twice (%d bound)' % n)
+
+
+def inner_counters_reset(ctx, rule, prefixes, floor, why):
+    """A counter-driven `while i < n:` loop nested in another loop scans its table from the start on EVERY pass of the outer loop: the
+    plain assignment that initialises the counter sits inside the outer loop.  Hoisted out of it (seed C11-fb: `cur_index = 0` moved in
+    front of `while cur_level >= 0`), the second pass resumes where the first one stopped - the entries before that point are never
+    tried at the lower level, silently.  Counted: while loops nested in a loop whose test reads a local name the body advances."""
+    n = 0
+    bad = False
+    for rel, m in sorted(ctx.repo.modules.items()):
+        if not rel.startswith(tuple(prefixes)):
+            continue
+        for q_, fn in sorted(m.funcs.items()):
+            plain = {}
+            for st in walk_local(fn):
+                if isinstance(st, ast.Assign):
+                    for t in st.targets:
+                        for e in (t.elts if isinstance(t, (ast.Tuple, ast.List)) else [t]):
+                            if isinstance(e, ast.Name):
+                                plain.setdefault(e.id, []).append(st)
+            for outer in walk_local(fn):
+                if not isinstance(outer, (ast.While, ast.For)):
+                    continue
+                inside_outer = {id(x) for st in outer.body for x in ast.walk(st)}
+                for inner in walk_local(fn):
+                    if not isinstance(inner, ast.While) or id(inner) not in inside_outer:
+                        continue
+                    # only the DIRECTLY enclosing loop matters
+                    if any(isinstance(mid, (ast.While, ast.For)) and mid is not outer and mid is not inner
+                           and id(mid) in inside_outer and id(inner) in {id(x) for st in mid.body for x in ast.walk(st)}
+                           for mid in walk_local(fn)):
+                        continue
+                    tested = {x.id for x in ast.walk(inner.test) if isinstance(x, ast.Name)}
+                    in_inner = {id(x) for st in inner.body for x in ast.walk(st)}
+                    adv = set()
+                    for st in ast.walk(inner):
+                        if isinstance(st, ast.AugAssign) and isinstance(st.target, ast.Name) and st.target.id in tested:
+                            adv.add(st.target.id)
+                        elif isinstance(st, ast.Assign) and id(st) in in_inner and len(st.targets) == 1 and isinstance(st.targets[0], ast.Name) \
+                                and st.targets[0].id in tested and any(isinstance(x, ast.Name) and x.id == st.targets[0].id for x in ast.walk(st.value)):
+                            adv.add(st.targets[0].id)
+                    for c in sorted(adv):
+                        n += 1
+                        inits = [st for st in plain.get(c, []) if id(st) not in in_inner]
+                        if not inits:
+                            continue        # a parameter / attribute-fed counter: nothing to compare
+                        q = '%s::%s' % (rel, q_)
+                        ctx.stats['functions'].add(q)
+                        if not any(id(st) in inside_outer for st in inits):
+                            bad = True
+                            ctx.bad(rule, q, 'counter %s of the nested loop `while %s` is initialised only outside the enclosing loop (%s)'
+                                    % (c, U(inner.test)[:40], U(inits[0])[:40]), why, None, inits[0], firm=True)
+    if ctx.floor(rule, prefixes[0], n, floor, 'counter-driven nested while loops in %s' % ', '.join(prefixes)) and not bad:
+        ctx.ok(rule, prefixes[0], 'every counter of a nested while loop is (re)initialised inside the enclosing loop (%d loops)' % n)
